@@ -165,7 +165,7 @@ pub fn gen_any_graph(t: &mut Tape, tier: Tier) -> G {
 /// larger sparse graphs: chains, trees with a few chords, up to 12 (thorough 14) edges on up to E+1 vertices
 pub fn gen_sparse_large_graph(t: &mut Tape, tier: Tier) -> G {
     let ne = t.range(8, tier.pick(12, 14));
-    let shape = t.below(3);
+    let shape = t.below(4);
     let mut edges: Vec<(u8, u8)> = vec![];
     let base = t.below(200) as u8;
     let lab = |v: usize| base.wrapping_add(v as u8);
@@ -189,6 +189,13 @@ pub fn gen_sparse_large_graph(t: &mut Tape, tier: Tier) -> G {
                 edges.push((lab(u), lab(v)));
             }
             while edges.len() < ne {
+                edges.push((lab(t.below(nv)), lab(t.below(nv))));
+            }
+        }
+        3 => {
+            // many parallel edges and self-loops on two or three vertices
+            let nv = t.range(1, 3);
+            for _ in 0..ne {
                 edges.push((lab(t.below(nv)), lab(t.below(nv))));
             }
         }
